@@ -135,7 +135,8 @@ type Damage struct {
 	NoIdx bool   // index removed
 }
 
-func cloneb(b []byte) []byte { return append([]byte(nil), b...) }
+// cloneb copies b; the copy of an empty slice is empty but not nil (nil means "file unchanged" in a Damage).
+func cloneb(b []byte) []byte { return append([]byte{}, b...) }
 
 func prand(n, seed int) []byte {
 	b := make([]byte, n)
@@ -461,7 +462,10 @@ func run07(t Task) Result {
 			after := readFiles(dir)
 			outcome := fmt.Sprintf("k=%d/%d clean=%v check=%v files=%s", k, len(recs), clean, wantCheck, strings.Join(names(after), ","))
 			res.Outcomes[outcome]++
-			if !bytes.Equal(after[logName], dlog[:end]) {
+			// (an empty file has no version yet: opening it for writing stamps the file header of the
+			// configured version on it, which is not a record)
+			stamped := mode == 1 && end == 0 && len(dlog) == 0 && bytes.Equal(after[logName], refcodec.LogHeader(t.Ver))
+			if !bytes.Equal(after[logName], dlog[:end]) && !stamped {
 				fail("Recover: log is not the valid prefix", "after Recover the log has %d bytes, the longest valid prefix (%d records) has %d bytes (file had %d)", len(after[logName]), k, end, len(dlog))
 			}
 			if ib, ok := after[idxName]; ok {
